@@ -2,7 +2,7 @@
 
 ID = "C11"
 
-PROP = {'lean_props': ['Comrak.Props.C11'],
+PROP = {'lean_props': ['Comrak.Props.C11', 'Comrak.Props.C11C12Canon'],
  'lean_audit': ['Comrak.Audit.C11'],
  'required_theorems': ['lineTable_covers',
                        'spNested_trans',
@@ -13,10 +13,13 @@ PROP = {'lean_props': ['Comrak.Props.C11'],
                        'spx_consume_in_range',
                        'blockEnd_after_start',
                        'blockEnd_counterexample',
-                       'thematicEnd_exact', 'thematicEnd_old_exact_iff'],
+                       'thematicEnd_exact', 'thematicEnd_old_exact_iff',
+                       'canon_positions_in_range_nested_ordered'],
  'strength': 'partial: theorems cover the oracles (line table partitions the source, nesting is a pre-order, per-level order check suffices) '
              'and the modelled mechanisms (Spx::consume exactly; the three-way end rule of finalize_borrowed under its explicit hypothesis, '
-             'refuted without it; thematic-break end column exact iff no container prefix was consumed). The whole parser is reached by the '
+             'refuted without it; thematic-break end column exact iff no container prefix was consumed). On the canonical class of C03 (any nesting of quotes, lists, tables, task items, HTML blocks, footnotes, multi-line inlines) '
+             'the positions the model claims satisfy range, nesting and order for every document (canon_positions_in_range_nested_ordered), and C03\'s '
+             'correspondence compares them with the real parser\'s on every run. Outside that class the parser is reached by the '
              'search stage only, which always runs at full volume; the defects it finds on the pinned tree are listed findings.',
  'trusted_base': ['the oracle definitions of Comrak/Sourcepos.lean (spRangeFail, spNested, spOrdered, kinds excluded as documented-unreliable, '
                   'footnote definitions exempt from sibling order because the parser relocates them) are the reading of the property; end column 0 '
